@@ -145,6 +145,7 @@ class STIXPatternVisitorForSTIX2():
         else:
             if isinstance(children[0], _BooleanExpression) and same_boolean_operator(children[0].operator, children[1]):
                 children[0].operands.append(children[2])
+                children[0].root_types = children[0].root_types | children[2].root_types
                 return children[0]
             else:
                 return self.instantiate("OrBooleanExpression", [children[0], children[2]])
